@@ -16,6 +16,10 @@ CHECKS = {
    text="Non-interference of batch-global values: every BHJM wrapper is executed row-generically to path exhaustion and, for any two global situations (any()/all()/len of the batch) consistent with the same row, the row's B/H/J/M are proved equal (z3) - so a row's value cannot depend on what else is in the call at the wrapper level. The TriangularMesh grouping loop is cut with an inductive invariant. Level-2 element provenance (grouping/tiling/reshape, path tiling of shorter objects) is carried by a labelled bounded term-exact stand-in, vectorised==element-wise natively.",
    note="Assumes cores row-wise where not reached (listed in evidence), elliptic routines row-wise (bounded numeric stand-in), reals for doubles.",
    technique="contract-based deductive verification: row-generic symbolic execution + z3 (non-interference), loop invariant for the trimesh grouping loop"),
+ "C12": dict(level="proof",
+   text="Homogeneity type derivation (dimension calculus) over the exact term DAG each real BHJM wrapper computes on a generic row, for every path: all branch masks and J, M are proved unit-free and B, H of degree 0 / -1 / -3 in the length unit, and of degree 1 in the excitation, given the assumed homogeneity contracts of the core stubs. Absolute constants mixed with lengths are type errors (CylinderSegment's 1e-14 / 1e-12 are a recorded known finding identified by call-site constants). Numeric decade sweep on the real classes is a labelled bounded stand-in.",
+   note="Assumes homogeneity of the core field functions (not proved), reals for doubles; TriangularMesh wrapper / mesh validation only in the numeric stand-in.",
+   technique="contract-based deductive verification: symbolic execution of the real wrappers + dimension-calculus type derivation over the resulting terms"),
 }
 _NB = "stand-in / contracts not built yet in this session (see DESIGN.md); not claimed"
 NA = {
